@@ -191,7 +191,7 @@ CheckCompose(e, i) ==
       \* belongs to a template that rendered
       /\ (failing # {} => Hit("HalfRendered.NoWrite"))
       /\ ((\A w \in ws : w.tpl \in all \ failing) \/ Viol("HalfRendered.NoWrite", i))
-      /\ ((\A t \in failing : IF in.phase = "create" \/ in.kind = "namegen" THEN ~st(t).exists ELSE (st(t).exists /\ st(t).size = "large"))
+      /\ ((\A t \in failing : IF in.phase = "create" \/ in.kind \in {"namegen", "namegen-nomatch"} THEN ~st(t).exists ELSE (st(t).exists /\ st(t).size = "large"))
             \/ Viol("HalfRendered.Untouched", i))
       \* "while the other resources still are": a render failure is not terminal and every other template is applied
       /\ ((all \ failing) # {} => Hit("HalfRendered.OthersApplied"))
